@@ -207,6 +207,15 @@ func (e *Engine) goType(pkgPath, s string) types.Type {
 		}
 		return nil
 	}
+	if strings.HasPrefix(s, "map[") {
+		end := matchBracket(s, 3)
+		k := e.goType(pkgPath, s[4:end])
+		v := e.goType(pkgPath, s[end+1:])
+		if k != nil && v != nil {
+			return types.NewMap(k, v)
+		}
+		return nil
+	}
 	if b := types.Universe.Lookup(s); b != nil {
 		if tn, ok := b.(*types.TypeName); ok {
 			return tn.Type()
